@@ -92,6 +92,24 @@ def gen(rng, tier):
         yield case
     for case in gen_slow(rng, tier):
         yield case
+    for case in gen_traps(rng, tier):
+        yield case
+
+
+def gen_traps(rng, tier):
+    for _ in range(3 if tier == 'quick' else 40):
+        # several closed sets: trajectories on disjoint state sets, or ending in different trap states
+        labs, akind = G.alphabet(rng, k=rng.randint(4, 6))
+        rng.shuffle(labs)
+        h = len(labs) // 2
+        if rng.random() < 0.5:
+            trajs = [G.traj(rng, labs[:h], rng.randint(30, 80), sticky=0.6) + labs[:h], G.traj(rng, labs[h:], rng.randint(30, 80), sticky=0.6) + labs[h:]]
+        else:
+            core = labs[:-2]
+            trajs = [G.traj(rng, core, rng.randint(20, 50), sticky=0.5) + core + [labs[-2]] * rng.randint(3, 9),
+                     G.traj(rng, core, rng.randint(20, 50), sticky=0.5) + core + [labs[-1]] * rng.randint(3, 9)]
+        yield {'k': 'its', 'trajs': trajs, 'lags': rng.sample([1, 2, 3], rng.randint(1, 3)), 'nts': rng.choice([None, 1, 2]),
+               'style': 'traps', 'lumped': False, 'alpha': akind}
 
 
 def gen_slow(rng, tier):
@@ -141,7 +159,14 @@ def impl(case):
             if not np.array_equal(keep, A):
                 diff.append('a %s matrix was modified' % lname)
         out['layout_diff'] = diff
+        keepM = M.copy()
         out['lvals'] = [_c(v) for v in linalg.left_eigenvalues(M, nvals=case['nvals'])]
+        Mf = np.asfortranarray(keepM)
+        linalg.right_eigenvalues(Mf, nvals=case['nvals'])
+        out['M_intact'] = bool(np.array_equal(M, keepM) and np.array_equal(Mf, keepM))
+        # ... and the eigen-pairs asked for AFTER the eigenvalue-only calls on the same arrays are unchanged
+        again = linalg.left_eigenvectors(M, nvals=case['nvals'])
+        out['pairs_again'] = [_c(v) for v in again[0]] == out['left']['vals'] and [[_c(x) for x in v] for v in again[1]] == out['left']['vecs']
         out['rvals'] = [_c(v) for v in linalg.right_eigenvalues(M, nvals=case['nvals'])]
         return out
     trajs = [np.array(t) for t in G.expand(case)]
@@ -236,6 +261,10 @@ def judge(case, ibc, answers):
                     P('impl-vs-spec', '%s eigenvalues do not sum to the trace' % name)
             for d in r.get('layout_diff') or []:
                 P('impl-vs-spec', d)
+            if r.get('M_intact') is False:
+                P('impl-vs-spec', 'an eigenvalue-only call overwrote the matrix passed to it')
+            if r.get('pairs_again') is False:
+                P('impl-vs-spec', 'left_eigenvectors after eigenvalue-only calls on the same matrix returns other pairs')
             if r['lvals'] != r['left']['vals'] or r['rvals'] != r['right']['vals']:
                 P('impl-vs-spec', '*_eigenvalues differ from the values returned by *_eigenvectors')
             continue
